@@ -53,6 +53,18 @@ def untilNil (ops : Ops Pkg) : List Pkg → Result Pkg × List Pkg
       | some q' => (.nilOk, q')
       | none => (.blocked, [])
 
+/-- the drain after a callback error: consume up to and including the first final DONE, collecting
+the EED packages on the way (repo fix "the error of a failed package callback carries the messages
+of the rest of the response"); running out of packages = the wait ends with the context -/
+def drainCollect (ops : Ops Pkg) : List Pkg → List Pkg × List Pkg
+  | [] => ([], [])
+  | p :: q =>
+    if ops.isEED p then
+      let r := drainCollect ops q
+      (p :: r.1, r.2)
+    else if ops.isDoneFinal p then ([], q)
+    else drainCollect ops q
+
 /-- `NextPackageUntil(ctx, wait, cb)`; `cb` may depend on the package; `eeds` accumulates the
 EED packages seen by this call -/
 def untilCb (ops : Ops Pkg) (cb : Pkg → Cb) : List Pkg → List Pkg → Result Pkg × List Pkg
@@ -63,9 +75,10 @@ def untilCb (ops : Ops Pkg) (cb : Pkg → Cb) : List Pkg → List Pkg → Result
       match cb p with
       | .eof => (.eofPkg p, q)
       | .fail =>
-        -- consume the rest of the response unless p already is the final DONE
-        let q' := if ops.isDoneFinal p then q else (untilNil ops q).2
-        (.cbErr eeds, q')
+        -- consume the rest of the response unless p already is the final DONE; the messages in
+        -- that rest join the error
+        let r := if ops.isDoneFinal p then ([], q) else drainCollect ops q
+        (.cbErr (eeds ++ r.1), r.2)
       | .stop => (.pkg p, q)
       | .cont => untilCb ops cb q eeds
 
